@@ -213,6 +213,10 @@ def m_next(ctx):
 
 
 def run_closure_over(ctx, it, f, tag):
+    for h in ctx.I.hooks:
+        h("iter_next", interp=ctx.I, ctx=ctx, it=it)
+    if mutating_closure(ctx, f):
+        ctx.pre("closure passed to an iterator consumer writes to captured state (not modelled)", False)
     item, _ = iter_item(ctx, it, tag)
     if item is None:
         return None
